@@ -472,6 +472,12 @@ PROPS["C14"]["text"] += " QueryParamError quotes a received scalar as written (d
 PROPS["C16"]["text"] = PROPS["C16"]["text"].replace("84 hand-written derive inputs (10 valid controls, 74 poisoned", "95 hand-written derive inputs (10 valid controls, 85 poisoned")
 PROPS["C16"]["text"] += " Near-miss spellings of the rename_all value (CamelCase, camel_case, CAMEL_CASE, camelcase, Lowercase, LOWERCASE, lowerCase, lower_case) at container and variant level are among the poisoned inputs."
 
+# after the thirteenth batch of seeded changes
+PROPS["C13"]["text"] += " The complete float harness (all f64) also requires the rebuilt number to be HELD as a float (is_f64) through both routes: a whole-valued float is never turned into an integer."
+PROPS["C14"]["text"] += " Whole-valued floats (3.0, -2.0, 1e16) are among the received values: JsonError quotes them as serde_json writes them."
+PROPS["C16"]["text"] = PROPS["C16"]["text"].replace("95 hand-written derive inputs (10 valid controls, 85 poisoned", "102 hand-written derive inputs (10 valid controls, 92 poisoned")
+PROPS["C16"]["text"] += " The bare `#[deserr]` and the name-value `#[deserr = \"..\"]` forms at container, field and variant level are among the poisoned inputs (any diagnostic inside the case's lines counts as the rejection)."
+
 NOT_APPLICABLE = {
     "C20": "HTTP extractors are three-line async compositions of actix-web/axum extractors with deserr::deserialize; neither installed verifier can run or specify the frameworks (futures, pinning, runtime), so every obligation would be an assumed contract on actix/axum with nothing left to prove; the features are off by default and not compiled in the baseline.",
 }
